@@ -12,6 +12,8 @@
 """
 import concurrent.futures as cf
 
+import zlib
+
 import numpy as np
 
 from vf import par, tlc
@@ -134,7 +136,7 @@ def build(prog, slen, realisation):
             stack.append([])
         elif m["kind"] == ")":
             inner = stack.pop()
-            stack[-1].append(pym.Network(inner))
+            stack[-1].append(pym.Network(inner, print_timing=True) if realisation == "timed" else pym.Network(inner))
         else:
             ins = [sig[r["sig"]] if not r["pos"] else sig[r["sig"]][pyindex(r["pos"])] for r in m["ins"]]
             outs = [sig[o] for o in m["outs"]]
@@ -147,7 +149,13 @@ def build(prog, slen, realisation):
                 mod = _CLASSES[k](ins, outs)
             stack[-1].append(mod)
             flat.append(mod)
-    net = pym.Network(stack[0])
+    if realisation == "timed":
+        # the other documented way of driving a network: modules appended one by one, timing enabled with a threshold
+        net = pym.Network(print_timing=1e9)
+        for mod in stack[0]:
+            net.append(mod)
+    else:
+        net = pym.Network(stack[0])
     return net, sig, flat
 
 
@@ -217,7 +225,11 @@ def replay_program(case, realisation):
                 return r
             m.response, m.sensitivity, m.reset, m._sensitivity = response, sensitivity, reset, adj
         mk()
+    import contextlib
+    import io
+    quiet = contextlib.redirect_stdout(io.StringIO()) if realisation == "timed" else contextlib.nullcontext()
     try:
+      with quiet:
         net.response()
         for o in seeded:
             w = np.array([1 + ((o + i) % 3) for i in range(1, slen[o - 1] + 1)], dtype=float)
@@ -248,7 +260,9 @@ def replay_program(case, realisation):
 def _replay_chunk(cases):
     out = []
     for case in cases:
-        for real in ("user", "lib", "dyad"):
+        for real in ("user", "lib", "dyad", "timed"):
+            if real == "timed" and zlib.crc32(repr((case["prog"], case["seeded"])).encode()) % 3:
+                continue        # timing enabled / modules appended one by one: a third of the cases
             if real == "lib" and not any(m["kind"] in ("Mul", "Cat") for m in case["prog"]):
                 continue
             if real == "dyad" and not all(m["kind"] in DYAD_KINDS | {"(", ")"} and all(not r["pos"] for r in m["ins"]) for m in case["prog"]):
